@@ -156,6 +156,9 @@ def error_exits(b, c, depth=0):
                     for st in b.blocks[blk]["stmts"]:
                         if st["k"] == "assign" and st["place"]["l"] == 0 and not st["place"]["p"] and st["rv"]["k"] == "agg" and st["rv"].get("variant") == "Err":
                             outer.append(blk)
+                        # the helper was called in tail position: its result, the failure included, is the function's result
+                        if st["k"] == "assign" and st["place"]["l"] == 0 and not st["place"]["p"] and st["rv"]["k"] == "use" and op_local(st["rv"]["op"]) in roots:
+                            outer.append(blk)
                 if outer and not [r for r in b.return_blocks() if r in b.reachable_from([X], removed_blocks=outer)]:
                     exit_blocks += outer
         if exit_blocks:
